@@ -15,11 +15,11 @@ package webdav
 //@ func webdav.(ConditionalMatch).ETag(val) (s, err)
 //@   ensures E1: err == nil <==> unquoteOk(string(val))
 //@   ensures E2: err == nil ==> s == unquoteVal(string(val))
-//@   ensures E3: err != nil ==> s == "" && httpCode(err) == -1 && !hostPath(err)
+//@   ensures E3: err != nil ==> s == "" && httpCode(err) == -1 && !hostPath(err) && asPathErr(err) == nil && asLinkErr(err) == nil
 //@ func webdav.(ConditionalMatch).MatchETag(val, etag) (ok, err)
 //@   ensures M1: (ok && err == nil) <==> tagMatches(string(val), etag)
 //@   ensures M2: err != nil <==> tagMalformed(string(val), etag)
-//@   ensures M3: err != nil ==> !ok && httpCode(err) == -1 && !hostPath(err)
+//@   ensures M3: err != nil ==> !ok && httpCode(err) == -1 && !hostPath(err) && asPathErr(err) == nil && asLinkErr(err) == nil
 //@ func webdav.verifETagHeaderRoundTrip(s) (r, err)
 //@   ensures RT: err == nil && r == s
 
@@ -34,6 +34,7 @@ package webdav
 //@   ensures T3: httpCode(err) == 400 <==> (ifMatch != "" && tagMalformed(string(ifMatch), curTag(fi)))
 //@   |   || (ifMatchOK(string(ifMatch), curTag(fi)) && ifNoneMatch != "" && tagMalformed(string(ifNoneMatch), curTag(fi)))
 //@   ensures T4: err != nil ==> (httpCode(err) == 412 || httpCode(err) == 400) && !hostPath(err)
+//@   ensures T5: !osIsExist(err) && asPathErr(err) == nil && asLinkErr(err) == nil
 
 //@ -- ---------------------------------------------------------------------------------------
 //@ -- C03 / C17 / C02 / C01 / C04: the local file system backend over the abstract resource tree of
@@ -46,6 +47,7 @@ package webdav
 //@   ensures L1: err == nil <==> validName(name)
 //@   ensures L2: err == nil ==> p == fjoin(fsroot, pclean(name)) && confined(p)
 //@   ensures L3: err != nil ==> p == "" && httpCode(err) == 400 && !hostPath(err) && !osIsExist(err)
+//@   |   && asPathErr(err) == nil && asLinkErr(err) == nil && !notFound(err) && !isPerm(err) && !isDeadline(err)
 //@ func webdav.(LocalFileSystem).externalPath(fs, name) (p, err)
 //@   requires R1: fsroot == string(fs)
 //@   ensures X1: forall c string :: canonRooted(c) && name == fjoin(fsroot, c) ==> err == nil && p == (c == "/" ? "/." : c)
@@ -54,19 +56,35 @@ package webdav
 //@   requires R1: fi != nil
 //@   ensures F1: r != nil && fresh(r) && r.Path == p && r.IsDir == fiIsDir(fi) && r.Size == fiSize(fi) && r.ModTime == fiModTime(fi)
 //@   ensures F2: r.ETag == hexOf(ns(fiModTime(fi))) + hexOf(fiSize(fi)) && r.ETag != ""
-//@ -- errors.Is sees through a *PathError to the error it wraps (no wrapper in front of it matches a sentinel itself)
-//@ spec chainOK(e error) bool = asPathErr(e) != nil ==> (isNotExist(e) <==> isNotExist(asPathErr(e).Err)) && (isPerm(e) <==> isPerm(asPathErr(e).Err))
-//@   | && (isDeadline(e) <==> isDeadline(asPathErr(e).Err)) && (isExist(e) <==> isExist(asPathErr(e).Err))
+//@ -- errors.Is sees through a *PathError / *LinkError to the error it wraps (no wrapper in front of it matches a sentinel itself)
+//@ spec sameClass(e error, w error) bool = (isNotExist(e) <==> isNotExist(w)) && (isPerm(e) <==> isPerm(w)) && (isDeadline(e) <==> isDeadline(w))
+//@   | && (isExist(e) <==> isExist(w)) && (isNotDir(e) <==> isNotDir(w))
+//@ spec chainOK(e error) bool = (asPathErr(e) != nil ==> sameClass(e, asPathErr(e).Err)) && (asPathErr(e) == nil && asLinkErr(e) != nil ==> sameClass(e, asLinkErr(e).Err))
+//@ -- the error whose text reaches the client once the path-carrying wrapper is dropped
+//@ spec stripped(e error) error = asPathErr(e) != nil ? asPathErr(e).Err : (asLinkErr(e) != nil ? asLinkErr(e).Err : e)
+//@ spec strippedOp(e error) string = asPathErr(e) != nil ? asPathErr(e).Op : (asLinkErr(e) != nil ? asLinkErr(e).Op : "")
+//@ spec notFound(e error) bool = isNotExist(e) || isNotDir(e)
 //@ func webdav.errFromOS(err) (r)
 //@   requires R1: chainOK(err)
 //@   ensures E0: (err == nil) == (r == nil)
-//@   ensures E1: isNotExist(err) ==> httpCode(r) == 404
-//@   ensures E2: !isNotExist(err) && isPerm(err) ==> httpCode(r) == 403
-//@   ensures E3: !isNotExist(err) && !isPerm(err) && isDeadline(err) ==> httpCode(r) == 503
-//@   ensures E4: err != nil && !isNotExist(err) && !isPerm(err) && !isDeadline(err) ==> httpCode(r) == (asPathErr(err) != nil ? httpCode(asPathErr(err).Err) : httpCode(err))
-//@   ensures E5: (isExist(r) <==> isExist(err)) && (asPathErr(err) != nil ==> !osIsExist(r))
-//@   -- C17: the host path carried by a *PathError is stripped
-//@   ensures E6: hostPath(r) == (asPathErr(err) != nil ? (strHostPath(asPathErr(err).Op) || hostPath(asPathErr(err).Err)) : hostPath(err))
+//@   ensures E1: notFound(err) ==> httpCode(r) == 404
+//@   ensures E2: !notFound(err) && isPerm(err) ==> httpCode(r) == 403
+//@   ensures E3: !notFound(err) && !isPerm(err) && isDeadline(err) ==> httpCode(r) == 503
+//@   ensures E4: err != nil && !notFound(err) && !isPerm(err) && !isDeadline(err) ==> httpCode(r) == httpCode(stripped(err))
+//@   ensures E5: (isExist(r) <==> isExist(err)) && (asPathErr(err) != nil || asLinkErr(err) != nil ==> !osIsExist(r))
+//@   -- C17: the host path carried by a *PathError or *LinkError is stripped
+//@   ensures E6: hostPath(r) == (strHostPath(strippedOp(err)) || hostPath(stripped(err)))
+//@   ensures E7: asPathErr(r) == asPathErr(stripped(err)) && asLinkErr(r) == asLinkErr(stripped(err)) && sameClass(r, stripped(err))
+//@ func webdav.errFromOSDest(err) (r)
+//@   requires R1: chainOK(err)
+//@   ensures D0: (err == nil) == (r == nil)
+//@   ensures D1: notFound(err) ==> httpCode(r) == 409
+//@   ensures D2: !notFound(err) && isPerm(err) ==> httpCode(r) == 403
+//@   ensures D3: !notFound(err) && !isPerm(err) && isDeadline(err) ==> httpCode(r) == 503
+//@   ensures D4: err != nil && !notFound(err) && !isPerm(err) && !isDeadline(err) ==> httpCode(r) == (httpCode(stripped(err)) == 404 ? 409 : httpCode(stripped(err)))
+//@   ensures D5: (asPathErr(err) != nil || asLinkErr(err) != nil ==> !osIsExist(r))
+//@   ensures D6: hostPath(r) == (strHostPath(strippedOp(err)) || hostPath(stripped(err)))
+//@   ensures D7: asPathErr(r) == asPathErr(stripped(err)) && asLinkErr(r) == asLinkErr(stripped(err))
 
 //@ -- entity tag of a stored resource (C04): derived from the metadata of the node in the current tree
 //@ spec tagOf(n $P) string = hexOf(ns(fiModTime(statInfo(n, tree, data)))) + hexOf(fiSize(statInfo(n, tree, data)))
@@ -74,9 +92,11 @@ package webdav
 //@   requires R1: served(fs) && !strHostPath(name)
 //@   ensures S1: err == nil <==> validName(name) && !absent(lnode(name))
 //@   ensures S2: err == nil ==> fi != nil && fresh(fi) && fi.Path == name && (fi.IsDir <==> isDir(lnode(name))) && fi.ETag == tagOf(lnode(name)) && fi.ETag != ""
+//@   |   && fi.Size == fiSize(statInfo(lnode(name), tree, data)) && fi.ModTime == fiModTime(statInfo(lnode(name), tree, data))
 //@   ensures S3: !validName(name) ==> httpCode(err) == 400
 //@   ensures S4: validName(name) && absent(lnode(name)) ==> httpCode(err) == 404
-//@   ensures S5: err != nil ==> fi == nil && !hostPath(err) && !osIsExist(err)
+//@   ensures S5: err != nil ==> fi == nil && !hostPath(err) && !osIsExist(err) && asPathErr(err) == nil && asLinkErr(err) == nil
+//@   ensures S6: err != nil ==> (notFound(err) <==> httpCode(err) == 404) && !isPerm(err) && !isDeadline(err)
 //@ func webdav.(LocalFileSystem).Open(fs, ctx, name) (f, err)
 //@   requires R1: served(fs) && !strHostPath(name)
 //@   ensures O1: err == nil <==> validName(name) && !absent(lnode(name))
@@ -89,5 +109,75 @@ package webdav
 //@   ensures M3: err != nil ==> tree == old(tree) && data == old(data)
 //@   ensures M4: !validName(name) ==> httpCode(err) == 400
 //@   ensures M5: validName(name) && !old(absent(lnode(name))) ==> httpCode(err) == 405
-//@   ensures M6: validName(name) && old(absent(lnode(name)) && !isDir(parent(lnode(name)))) ==> httpCode(err) == 404 || httpCode(err) == 409
-//@   ensures M7: err != nil ==> !hostPath(err)
+//@   ensures M6: validName(name) && old(absent(lnode(name)) && !isDir(parent(lnode(name)))) ==> httpCode(err) == 404
+//@   ensures M7: err != nil ==> !hostPath(err) && !osIsExist(err)
+//@   ensures WF: wfTree()
+
+//@ -- C04: a conditional request is carried out iff condOK; otherwise it is refused with condCode
+//@ spec condOK(im string, inm string, tag string) bool = ifMatchOK(im, tag) && (inm == "" || (!tagMatches(inm, tag) && !tagMalformed(inm, tag)))
+//@ spec condCode(im string, inm string, tag string) int = (im != "" && tagMalformed(im, tag)) ? 400 : ((im != "" && !tagMatches(im, tag)) ? 412
+//@   | : ((inm != "" && tagMalformed(inm, tag)) ? 400 : 412))
+//@ func webdav.(LocalFileSystem).RemoveAll(fs, ctx, name, opts) (err)
+//@   requires R1: served(fs) && !strHostPath(name) && opts != nil
+//@   ensures D1: err == nil <==> validName(name) && old(!absent(lnode(name)) && condOK(string(opts.IfMatch), string(opts.IfNoneMatch), tagOf(lnode(name))))
+//@   ensures D2: err == nil ==> (forall m $P :: kindOf(tree, m) == (anc(lnode(name), m) ? 0 : kindOf(old(tree), m))) && data == old(data)
+//@   ensures D3: err != nil ==> tree == old(tree) && data == old(data)
+//@   ensures D4: !validName(name) ==> httpCode(err) == 400
+//@   ensures D5: validName(name) && old(absent(lnode(name))) ==> httpCode(err) == 404
+//@   ensures D6: validName(name) && err != nil && old(!absent(lnode(name))) ==> httpCode(err) == old(condCode(string(opts.IfMatch), string(opts.IfNoneMatch), tagOf(lnode(name))))
+//@   ensures D7: err != nil ==> !hostPath(err)
+//@   ensures WF: wfTree()
+
+//@ -- PUT. The request is accepted iff the name is valid, the target is not a collection, its parent is one and the
+//@ -- preconditions hold against the current entity tag ("" for an absent resource)
+//@ spec putTag(n $P) string = absent(n) ? "" : tagOf(n)
+//@ spec putAccepted(name string, im string, inm string) bool = validName(name) && !isDir(lnode(name)) && isDir(parent(lnode(name))) && condOK(im, inm, putTag(lnode(name)))
+//@ func webdav.(LocalFileSystem).Create(fs, ctx, name, body, opts) (fi, created, err)
+//@   requires R1: served(fs) && !strHostPath(name) && opts != nil
+//@   ensures K1: err == nil <==> old(putAccepted(name, string(opts.IfMatch), string(opts.IfNoneMatch))) && !readerFails(body)
+//@   ensures K2: err == nil ==> tree == setKind(old(tree), lnode(name), 1) && contentOf(data, lnode(name)) == readerContent(body) && created == old(absent(lnode(name)))
+//@   |   && (forall m $P :: m != lnode(name) ==> contentOf(data, m) == contentOf(old(data), m))
+//@   ensures K3: err == nil ==> fi != nil && fi.Path == name && !fi.IsDir && fi.ETag == tagOf(lnode(name)) && fi.ETag != ""
+//@   -- C02: a refused PUT changes nothing
+//@   ensures K4: err != nil && !old(putAccepted(name, string(opts.IfMatch), string(opts.IfNoneMatch))) ==> tree == old(tree) && data == old(data)
+//@   -- C02: a PUT whose body breaks off leaves no trace of a new resource ...
+//@   ensures K4new: err != nil && old(absent(lnode(name))) ==> tree == old(tree) && (forall m $P :: isFile(m) ==> contentOf(data, m) == contentOf(old(data), m))
+//@   -- ... and the old content of an existing one
+//@   ensures K4old-bodyfail: err != nil && old(isFile(lnode(name))) ==> tree == old(tree) && (forall m $P :: isFile(m) ==> contentOf(data, m) == contentOf(old(data), m))
+//@   ensures K5: !validName(name) ==> httpCode(err) == 400
+//@   ensures K6: validName(name) && old(isDir(lnode(name))) ==> httpCode(err) == 405
+//@   ensures K7: validName(name) && old(!isDir(lnode(name)) && !condOK(string(opts.IfMatch), string(opts.IfNoneMatch), putTag(lnode(name)))) ==> httpCode(err) == old(condCode(string(opts.IfMatch), string(opts.IfNoneMatch), putTag(lnode(name))))
+//@   ensures K8: validName(name) && old(!isDir(lnode(name)) && !isDir(parent(lnode(name))) && condOK(string(opts.IfMatch), string(opts.IfNoneMatch), putTag(lnode(name)))) ==> httpCode(err) == 409
+//@   ensures K9: err != nil ==> fi == nil && !created && !hostPath(err)
+//@   ensures WF: wfTree()
+
+//@ -- COPY / MOVE
+//@ func webdav.pathContains(parent, child) (r)
+//@   requires R1: confined(parent) && confined(child)
+//@   ensures C1: r <==> anc(node(parent), node(child))
+//@ func webdav.checkCopyMove(srcPath, dstPath) (err)
+//@   requires R1: confined(srcPath) && confined(dstPath)
+//@   ensures X1: err == nil <==> !absent(node(srcPath)) && disjoint(node(srcPath), node(dstPath))
+//@   ensures X2: absent(node(srcPath)) ==> httpCode(err) == 404
+//@   ensures X3: !absent(node(srcPath)) && !disjoint(node(srcPath), node(dstPath)) ==> httpCode(err) == 403
+//@   ensures X4: err != nil ==> !hostPath(err) && !osIsExist(err)
+//@ -- the request is accepted iff both names are valid, the source exists, neither resource contains the other, the
+//@ -- destination's parent is a collection and the destination is absent or may be overwritten
+//@ spec copyMoveAccepted(src string, dst string, noOverwrite bool) bool = validName(src) && validName(dst) && !absent(lnode(src)) && disjoint(lnode(src), lnode(dst))
+//@   | && isDir(parent(lnode(dst))) && (absent(lnode(dst)) || !noOverwrite)
+//@ func webdav.(LocalFileSystem).Move(fs, ctx, src, dst, options) (created, err)
+//@   requires R1: served(fs) && !strHostPath(src) && !strHostPath(dst) && options != nil
+//@   ensures V1: err == nil <==> old(copyMoveAccepted(src, dst, options.NoOverwrite))
+//@   ensures V2: err == nil ==> created == old(absent(lnode(dst)))
+//@   ensures V3: err == nil ==> (forall m $P :: kindOf(tree, m) == (anc(lnode(src), m) ? 0 : (anc(lnode(dst), m) ? kindOf(old(tree), graft(lnode(src), lnode(dst), m)) : kindOf(old(tree), m))))
+//@   ensures V4: err == nil ==> (forall m $P :: anc(lnode(dst), m) ==> contentOf(data, m) == contentOf(old(data), graft(lnode(src), lnode(dst), m)))
+//@   |   && (forall m $P :: !anc(lnode(dst), m) ==> contentOf(data, m) == contentOf(old(data), m))
+//@   -- C02
+//@   ensures V5: err != nil ==> tree == old(tree) && data == old(data)
+//@   ensures V6: !validName(src) || !validName(dst) ==> httpCode(err) == 400
+//@   ensures V7: validName(src) && validName(dst) && old(absent(lnode(src))) ==> httpCode(err) == 404
+//@   ensures V8: validName(src) && validName(dst) && old(!absent(lnode(src)) && !disjoint(lnode(src), lnode(dst))) ==> httpCode(err) == 403
+//@   ensures V9: validName(src) && validName(dst) && old(!absent(lnode(src)) && disjoint(lnode(src), lnode(dst)) && !absent(lnode(dst))) && options.NoOverwrite ==> httpCode(err) == 412
+//@   ensures V10: validName(src) && validName(dst) && old(!absent(lnode(src)) && disjoint(lnode(src), lnode(dst)) && absent(lnode(dst)) && !isDir(parent(lnode(dst)))) ==> httpCode(err) == 409
+//@   ensures V11: err != nil ==> !created && !hostPath(err)
+//@   ensures WF: wfTree()
